@@ -82,6 +82,7 @@ type c02Pools struct {
 	ftimes   []int64
 	ldeltas  []int64
 	payloads [][]vq.Run
+	subTags  []*c02SubTag // sub-query campaign: tags with a simple definition that filters may name
 }
 
 func c02Clamp16(v int) uint16 {
